@@ -24,9 +24,18 @@ type Script struct {
 	Side  string   `json:"side"`  // "sender" = scripted sender vs real receiver; "receiver" = scripted receiver vs real sender
 	Stage string   `json:"stage"` // header | records | responses
 	Syms  []string `json:"syms"`
+	// Ending: "" = the script finishes its streams and then closes the connection;
+	// "open" = it finishes every stream and leaves the connection open (an idle, not a dead, peer)
+	Ending string `json:"ending,omitempty"`
 }
 
-func (s Script) String() string { return s.Side + "/" + s.Stage + ":" + strings.Join(s.Syms, ",") }
+func (s Script) String() string {
+	e := ""
+	if s.Ending != "" {
+		e = "+" + s.Ending
+	}
+	return s.Side + "/" + s.Stage + ":" + strings.Join(s.Syms, ",") + e
+}
 
 var c15m = manifest.Manifest{Root: "share", FileCount: 2, TotalBytes: 6, Items: []manifest.FileItem{
 	{RelPath: "f1", Size: 6, ID: "1111111111111111"},
@@ -43,7 +52,7 @@ var c15cur *c15Out
 
 func senderSymbols() []string {
 	return []string{"DS0", "DS1", "DS2", "DSmax", "FB1", "FB1dup", "FBunknown", "FBwrongsize", "FBchunk0", "FB2", "RR1", "RRunknown", "FE1", "FEunknown",
-		"END", "CREDIT", "CREDITBATCH", "FILEDONE", "RESUMEINFO", "UNKNOWN", "TRUNC",
+		"END", "DSFIN", "CREDIT", "CREDITBATCH", "FILEDONE", "RESUMEINFO", "UNKNOWN", "TRUNC",
 		"CH0", "CH1", "CHrange", "CHlen0", "CHlong", "CHkey", "CHcrc", "CHtrunc"}
 }
 
@@ -101,6 +110,14 @@ func runScriptedSender(sc Script) {
 					ctrl.Write(encFileEnd(4242))
 				case "END":
 					ctrl.Write(encEnd())
+				case "DSFIN":
+					// the data streams end here, earlier than the control stream; what they
+					// carried is consumed first (the timer fires once every thread is blocked)
+					vrt.Sleep(10 * time.Millisecond)
+					for _, d := range ds {
+						d.Close()
+					}
+					vrt.Sleep(10 * time.Millisecond)
 				case "CREDIT":
 					ctrl.Write(cat([]byte{0x11}, be64(1), be32(1)))
 				case "CREDITBATCH":
@@ -138,7 +155,11 @@ func runScriptedSender(sc Script) {
 			d.Close()
 		}
 		ctrl.Close()
-		vrt.Sleep(50 * time.Millisecond)
+		if sc.Ending == "open" {
+			vrt.Block("script-waits-for-receiver", func() bool { return o.returned })
+		} else {
+			vrt.Sleep(50 * time.Millisecond)
+		}
 		cl.Close()
 	})
 	vrt.GoNamed("R", "R", func() {
@@ -366,12 +387,12 @@ func c15Cfg() vrt.Config {
 }
 
 func modeC15() {
-	res.Rule = "scripted sender against the real receiver: header variants (wrong magic, every 3rd truncation, absurd length, invalid and odd JSON) and all record/frame sequences up to length 3 (4 in the thorough tier) over a 29-symbol alphabet, after which the script closes its streams and the connection; scripted receiver against the real sender: every pair (answer to the resume request x answer to FileEnd); non-trivial = every script; distinct by script"
+	res.Rule = "scripted sender against the real receiver: header variants (wrong magic, every 3rd truncation, absurd length, invalid and odd JSON) and all record/frame sequences up to length 3 (4 in the thorough tier) over a 30-symbol alphabet (one symbol ends the data streams early), after which the script finishes its streams and either closes the connection or leaves it open; scripted receiver against the real sender: every pair (answer to the resume request x answer to FileEnd); non-trivial = every script; distinct by script"
 	thorough := vlib.F.Tier == "thorough"
 	st := newStats()
 	var scripts []Script
 	for _, h := range headerVariants() {
-		scripts = append(scripts, Script{"sender", "header", []string{h}})
+		scripts = append(scripts, Script{Side: "sender", Stage: "header", Syms: []string{h}})
 	}
 	syms := senderSymbols()
 	maxLen := 3
@@ -381,7 +402,7 @@ func modeC15() {
 	var rec func(cur []string)
 	rec = func(cur []string) {
 		if len(cur) > 0 {
-			scripts = append(scripts, Script{"sender", "records", append([]string{}, cur...)})
+			scripts = append(scripts, Script{Side: "sender", Stage: "records", Syms: append([]string{}, cur...)})
 		}
 		if len(cur) == maxLen {
 			return
@@ -393,21 +414,28 @@ func modeC15() {
 	rec(nil)
 	if !thorough {
 		// length 4 over the record symbols that change the receiver's state
-		core := []string{"DS1", "DS2", "FB1", "FB2", "RR1", "FE1", "END", "CH0", "CH1", "CHkey", "CHcrc", "TRUNC"}
+		core := []string{"DS1", "DS2", "FB1", "FB2", "RR1", "FE1", "END", "DSFIN", "CH0", "CH1", "CHkey", "CHcrc", "TRUNC"}
 		for _, a := range core {
 			for _, b := range core {
 				for _, c := range core {
 					for _, d := range core {
-						scripts = append(scripts, Script{"sender", "records", []string{a, b, c, d}})
+						scripts = append(scripts, Script{Side: "sender", Stage: "records", Syms: []string{a, b, c, d}})
 					}
 				}
 			}
 		}
 	}
+	// every record script also with the other ending
+	for _, sc := range append([]Script{}, scripts...) {
+		if sc.Stage == "records" {
+			sc.Ending = "open"
+			scripts = append(scripts, sc)
+		}
+	}
 	ri, fd := receiverResponses()
 	for _, a := range ri {
 		for _, b := range fd {
-			scripts = append(scripts, Script{"receiver", "responses", []string{a, b}})
+			scripts = append(scripts, Script{Side: "receiver", Stage: "responses", Syms: []string{a, b}})
 		}
 	}
 	_ = bytes.MinRead
